@@ -19,6 +19,8 @@ def parse_case_line(line):
     params = dict(kv.split("=") for kv in secs[0].split()[1:])
     if secs[0].startswith("status"): return mk_status(params["sched"], int(params["n"]))
     if secs[0].startswith("latch"): return mk_latch(int(params["M"]), int(params["n"]), int(params["tclose"]))
+    if secs[0].startswith("mexec") and params["chan"] == "mmap_log":
+        return mk_logcase(int(params.get("seq", 1)), int(params["L"]), int(params.get("old", 0)), int(params["tclose"]), [int(t.split(":")[1]) for t in secs[1].split()])
     if secs[0].startswith("mexec"): return mk_mcase(params["chan"], int(params["k"]), int(params["L"]), int(params["tclose"]), [int(t.split(":")[1]) for t in secs[1].split()],
                                                      cancel=int(params.get("cancel", -1)), tcancel=int(params.get("tcancel", 0)))
     items = [(int(t.split(":")[1]), t.split(":")[2] == "1") for t in secs[1].split()]
@@ -70,6 +72,31 @@ def gen_mcase_removal(rng):
     k = rng.randint(1, 4)
     return mk_mcase(rng.choice(MKINDS), k, rng.choice([1, 1, 2, 4]), rng.choice([0, 5, 15, 45, 105]), [rng.choice([0, 10, 10, 20, 30]) for _ in range(rng.randint(1, 8))],
                     cancel=rng.randrange(k) if rng.random() < 0.75 else -1, tcancel=rng.choice([0, 5, 15, 35]))
+
+def mk_logcase(seq, L, n_old, tclose, durs):
+    """the log (mmap) Multi channel: n_old events are sent, then an old / new pair of executors is spawned (sequential_transition = seq), then
+    the remaining events are sent; close at tclose (no model: oracle only)"""
+    line = "mexec chan=mmap_log seq=%d L=%d old=%d tclose=%d ; %s ; S" % (seq, L, n_old, tclose, " ".join("it:%d" % d for d in durs))
+    return Case(line, None, dict(profile="mlog", seq=seq, L=L, old=min(n_old, len(durs)), tclose=tclose, items=durs))
+
+def gen_logcase(rng):
+    durs = [rng.choice([0, 10, 10, 20, 30]) for _ in range(rng.randint(0, 8))]
+    return mk_logcase(rng.choice([1, 1, 0]), rng.choice([1, 1, 2, 4]), rng.randint(0, len(durs)), rng.choice([0, 5, 15, 45, 105]), durs)
+
+def oracle_mlog(case, recs):
+    """C12 (last clause) and C09 at the Multi level: the old stream processes exactly the events sent before the pair was created, the new
+    stream exactly the others - none missing, none in both; with a sequential transition no new event starts before every old one is done;
+    each executor's close callback runs once; close answers true"""
+    hits = []; m = case.meta
+    r = {x[2]: (x[3], x[4]) for x in recs if x[0] == "ret"}
+    if 90 not in r: return [(None, "no result")]
+    n = len(m["items"]); n_old = m["old"]
+    if not r[90][0]: hits.append((None, "Multi::close(unbounded) answered false"))
+    if r[94] != (1, 1): hits.append((None, "the old stream processed %d events and the new one %d; %d were sent before the split and %d after it (old exact: %d, new exact: %d)" % (r[91][0], r[91][1], n_old, n - n_old, r[94][0], r[94][1])))
+    if r[93] != (1, 1): hits.append((None, "close callbacks: old executor %d, new executor %d" % r[93]))
+    if m["seq"] == 1 and n_old > 0 and n > n_old and r[92][1] < r[92][0]:
+        hits.append((None, "sequential transition: a new event started at %d ms, the last old event finished at %d ms" % (r[92][1], r[92][0])))
+    return hits[:1]
 
 def oracle_mexec_c12(case, recs):
     """C12 on a Multi: every executor's close callback runs exactly once, after the last item of its stream was fully processed (the listener
